@@ -197,6 +197,16 @@ VmTrap vm_core_execute(VmState *vm) {
 
     /* Main dispatch loop */
     while (vm->ip < code_end) {
+#ifdef NANOLANG_VERIF
+        if (vm->verif_step_hook) vm->verif_step_hook(vm, vm->ip);
+        if (vm->verif_fuel_on) {
+            if (vm->verif_fuel == 0) {
+                vm->verif_fuel_exhausted = 1;
+                return trap_error(vm, VM_ERR_NOT_IMPLEMENTED, "verif: instruction budget exhausted");
+            }
+            vm->verif_fuel--;
+        }
+#endif
         DecodedInstruction instr;
         uint32_t consumed = isa_decode(code + vm->ip, code_end - vm->ip, &instr);
         if (consumed == 0) {
